@@ -156,8 +156,9 @@ class Wrapped:
     arbitrary iterate (fresh symbols per component and phase) with the off-flags at their own fixed point, and put the
     allclose shim into *assume* mode so that only converged iterates survive."""
 
-    def __init__(self, ctx, sysobj, depth, mode="exact", stub_warns=True, tag=""):
+    def __init__(self, ctx, sysobj, depth, mode="exact", stub_warns=True, tag="", polarity=True):
         self.ctx, self.sys, self.depth, self.mode, self.stub_warns, self.tag = ctx, sysobj, depth, mode, stub_warns, tag
+        self.polarity = polarity
 
     def __enter__(self):
         ctx, sysobj = self.ctx, self.sys
@@ -191,6 +192,29 @@ class Wrapped:
                 v[idx] = ctx.iter_real("v[%s]%s%s" % (nm, "@" + phase if phase else "", tag))
                 i[idx] = ctx.iter_real("i[%s]%s%s" % (nm, "@" + phase if phase else "", tag))
                 ctx.ex.assume((i[idx] >= 0).t)  # currents are magnitudes in every law
+            if self.polarity:
+                # quantifier of C01/C02/...: steady states in which every series element keeps its polarity.  The kinds
+                # without a guard of their own (Source-rs, PSwitch, PMux, Rectifier-MOSFET) are constrained here; an
+                # overloaded (inverting / amplifying) iterate is the subject of C03, which switches this off.
+                import z3
+                from .symx import zabs
+
+                g = sysobj._g
+                for idx, nm in names.items():
+                    tname = g[idx]._component_type.name
+                    if tname == "SOURCE":
+                        vo = g[idx]._params["vo"]
+                        vo_t = vo.t if hasattr(vo, "t") else z3.RealVal(str(vo))
+                        ctx.ex.assume(z3.And(zabs(v[idx].t) <= zabs(vo_t), z3.Or(z3.And(vo_t >= 0, v[idx].t >= 0), z3.And(vo_t <= 0, v[idx].t <= 0))))
+                    elif tname in ("PSWITCH", "PMUX", "RECTIFIER"):
+                        ps = list(g.predecessor_indices(idx))
+                        alts = []
+                        for p_ in ps:
+                            if tname == "RECTIFIER":
+                                alts.append(z3.And(v[idx].t >= 0, v[idx].t <= zabs(v[p_].t)))
+                            else:
+                                alts.append(z3.And(zabs(v[idx].t) <= zabs(v[p_].t), z3.Or(z3.And(v[idx].t >= 0, v[p_].t >= 0), z3.And(v[idx].t <= 0, v[p_].t <= 0))))
+                        ctx.ex.assume(z3.Or(*alts))
             prev = None
             for _ in range(self.depth + 4):
                 try:
@@ -227,9 +251,9 @@ class Wrapped:
         return False
 
 
-def run_solve(ctx, sysobj, shape, method="solve", mode="exact", stub_warns=True, tag="", **kw):
+def run_solve(ctx, sysobj, shape, method="solve", mode="exact", stub_warns=True, tag="", polarity=True, **kw):
     """Real solve()/rail_rep() -> DataFrame; raises Unstable for the documented ValueError outcome."""
-    with Wrapped(ctx, sysobj, depth_of(shape), mode=mode, stub_warns=stub_warns, tag=tag):
+    with Wrapped(ctx, sysobj, depth_of(shape), mode=mode, stub_warns=stub_warns, tag=tag, polarity=polarity):
         try:
             return getattr(sysobj, method)(**kw)
         except ValueError as e:
